@@ -604,6 +604,8 @@ class C06Engine(object):
             prev = op[0]
         for sig, n in res.get("stats", {}).get("known", {}).items():
             self.known_seen[sig] = self.known_seen.get(sig, 0) + n
+        if res.get("inconclusive") and "does not know op" in res["inconclusive"]:
+            st["harness_errors"] += 1  # a wiring slip of the harness itself, never to be counted as "held"
         if res.get("inconclusive"):
             st["inconclusive"] += 1
             d["inconclusive"] += 1
